@@ -798,3 +798,91 @@ func runWidthLadder(c *Ctx) []Obligation {
 	}
 	return out
 }
+
+// SIGNED-SHIFT (C09, C10): zigzag coding maps a signed integer to an unsigned one and back:
+// encode (x << 1) ^ (x >> 63) — the right shift must be arithmetic (signed) to smear the sign bit —
+// and decode (u >> 1) ^ -(u & 1) — the right shift must be logical (unsigned), otherwise the top bit
+// of u is smeared into the result and every value of magnitude 2^(w-2) and above decodes wrongly.
+// The only visible difference is the type of the operand that is shifted.
+//
+// Slots (by shape, packages encoding and ingest/compact): functions with one integer parameter and
+// one integer result of the other signedness whose body is a single return of an XOR of a shift
+// and a term built from the low bit or the sign. Obligation: in the decoder (unsigned parameter) the
+// operand of `>>` is unsigned; in the encoder (signed parameter) the operand of `>>` is signed.
+func init() {
+	register(&Rule{
+		Name:  "SIGNED-SHIFT",
+		IR:    "ast",
+		Props: []string{"C09", "C10"},
+		Floor: 2,
+		Doc:   "in the zigzag pair the decoder shifts its unsigned argument right before converting it (a logical shift) and the encoder shifts its signed argument right (an arithmetic shift): the type of the operand of >> is the one the identity needs",
+		Run:   runSignedShift,
+	})
+}
+
+func runSignedShift(c *Ctx) []Obligation {
+	var out []Obligation
+	for _, rel := range []string{"encoding", "ingest/compact"} {
+		p := c.Pkg(rel)
+		if p == nil {
+			continue
+		}
+		info := p.TypesInfo
+		for _, fd := range c.FuncDecls(p) {
+			obj, _ := info.Defs[fd.Name].(*types.Func)
+			if obj == nil || fd.Recv != nil || len(fd.Body.List) != 1 {
+				continue
+			}
+			sig := obj.Type().(*types.Signature)
+			if sig.Params().Len() != 1 || sig.Results().Len() != 1 {
+				continue
+			}
+			pb, ok1 := sig.Params().At(0).Type().Underlying().(*types.Basic)
+			rb, ok2 := sig.Results().At(0).Type().Underlying().(*types.Basic)
+			if !ok1 || !ok2 || pb.Info()&types.IsInteger == 0 || rb.Info()&types.IsInteger == 0 {
+				continue
+			}
+			pUnsigned, rUnsigned := pb.Info()&types.IsUnsigned != 0, rb.Info()&types.IsUnsigned != 0
+			if pUnsigned == rUnsigned {
+				continue
+			}
+			ret, ok := fd.Body.List[0].(*ast.ReturnStmt)
+			if !ok || len(ret.Results) != 1 {
+				continue
+			}
+			x, ok := ast.Unparen(ret.Results[0]).(*ast.BinaryExpr)
+			if !ok || x.Op != token.XOR {
+				continue
+			}
+			// the right shifts in the expression
+			var shifts []*ast.BinaryExpr
+			ast.Inspect(x, func(n ast.Node) bool {
+				if be, ok := n.(*ast.BinaryExpr); ok && be.Op == token.SHR {
+					shifts = append(shifts, be)
+				}
+				return true
+			})
+			if len(shifts) != 1 {
+				continue
+			}
+			sh := shifts[0]
+			ob := Obligation{Key: c.FuncName(p, fd), Pos: c.Position(sh.Pos()), Status: OK}
+			opb, _ := info.TypeOf(sh.X).Underlying().(*types.Basic)
+			opUnsigned := opb != nil && opb.Info()&types.IsUnsigned != 0
+			switch {
+			case pUnsigned && !opUnsigned:
+				ob.Status = Violation
+				ob.Detail = fmt.Sprintf("the decoder shifts %s, a signed value, right: the shift is arithmetic and smears the top bit of the encoded value, so every value of magnitude 2^(w-2) and above decodes wrongly; shift the unsigned argument first and convert afterwards", nodeText(c.Fset, sh.X))
+			case !pUnsigned && opUnsigned:
+				ob.Status = Violation
+				ob.Detail = fmt.Sprintf("the encoder shifts %s, an unsigned value, right: the shift is logical and does not smear the sign bit, so negative values are encoded wrongly", nodeText(c.Fset, sh.X))
+			case pUnsigned:
+				ob.Detail = fmt.Sprintf("decoder: %s is shifted as an unsigned value (logical shift)", nodeText(c.Fset, sh.X))
+			default:
+				ob.Detail = fmt.Sprintf("encoder: %s is shifted as a signed value (arithmetic shift)", nodeText(c.Fset, sh.X))
+			}
+			out = append(out, ob)
+		}
+	}
+	return out
+}
